@@ -1,16 +1,28 @@
 # C17 — read/write classification of an attribute occurrence (what encapsulate-field turns into getter / setter calls): worder._RealFinder.get_assignment_type
 M = "rope.base.worder:"
 record("_RealFinder", fields={"code": "Str", "raw": "Str"})
+specfun("wend", ["_RealFinder", "Int"], "Int", note="_find_word_end(offset): last character of the word (c14_worder.py)")
+specfun("fnsc", ["_RealFinder", "Int"], "Int", note="_find_first_non_space_char(offset)")
 contract("_RealFinder._find_word_end", abstract=True, pure=True, heap_independent=True, params={"self": "_RealFinder", "offset": "Int"}, returns="Int",
-         ensures=["result >= offset"], note="verified in c14_worder.py")
+         ensures=["result >= offset", "result == wend(self, offset)"], note="verified in c14_worder.py")
 contract("_RealFinder._find_first_non_space_char", abstract=True, pure=True, heap_independent=True, params={"self": "_RealFinder", "offset": "Int"}, returns="Int",
-         ensures=["result >= 0"], note="first non-blank position at or after offset (or len(code))")
+         ensures=["result >= 0", "result == fnsc(self, offset)"], note="first non-blank position at or after offset (or len(code))")
+# the k characters that follow the word and the blanks after it
+specdef("after", {"f": "_RealFinder", "offset": "Int", "k": "Int"}, "Str", "f.code[fnsc(f, wend(f, offset) + 1):fnsc(f, wend(f, offset) + 1) + k]")
+specdef("is_cmp", {"d": "Str"}, "Bool", "d == '==' or d == '<=' or d == '>=' or d == '!='")
 contract("_RealFinder.get_assignment_type", source=M + "_RealFinder.get_assignment_type", params={"self": "_RealFinder", "offset": "Int"}, returns="Opt[Str]",
          requires=["0 <= offset"], modifies=[], raises={}, loops={1: {"unroll": 3}},
          ensures=[
              # a reported operator ends with '=' and is never the first two characters of a comparison
              "implies(not is_none(result), val(result).endswith('=') and 1 <= len(val(result)) and len(val(result)) <= 3)",
-             "implies(not is_none(result), val(result) != '==' and val(result) != '<=' and val(result) != '>=' and val(result) != '!=')"],
+             "implies(not is_none(result), val(result) != '==' and val(result) != '<=' and val(result) != '>=' and val(result) != '!=')",
+             # exactly: nothing when a comparison follows; otherwise the shortest of the next 1, 2, 3 characters that ends in '='
+             "implies(is_cmp(after(self, offset, 2)), is_none(result))",
+             "implies(not is_none(result), val(result) == after(self, offset, 1) or "
+             "        (val(result) == after(self, offset, 2) and not after(self, offset, 1).endswith('=')) or "
+             "        (val(result) == after(self, offset, 3) and not after(self, offset, 1).endswith('=') and not after(self, offset, 2).endswith('=')))",
+             "implies(is_none(result) and not is_cmp(after(self, offset, 2)), "
+             "        not after(self, offset, 1).endswith('=') and not after(self, offset, 2).endswith('=') and not after(self, offset, 3).endswith('='))"],
          note="the text after the word is classified as an assignment operator (=, or an augmented one of 2-3 characters) and never as a comparison")
 
 from bounded import c17_class_refactorings as _b17
